@@ -305,6 +305,8 @@ pub struct C06Stats {
     pub nonzero_protocol_cut: u64,
     /// steps whose protocol share is non-zero while the LP share is below one ulp of the growth accumulator
     pub cut_without_growth: u64,
+    /// steps charged a total rate above 65 535 (only adaptive-fee pools get there) with a non-zero fee
+    pub steps_rate_above_16_bits: u64,
 }
 
 pub fn c06_swap_oracle(pre: &Ledger, st: &Stepped, w: &StdWorld, a_to_b: bool, exact_in: bool, amount: u64, limit: u128, stats: &mut C06Stats) -> Result<(), String> {
@@ -329,6 +331,9 @@ pub fn c06_swap_oracle(pre: &Ledger, st: &Stepped, w: &StdWorld, a_to_b: bool, e
             SwapTrace::Step(s) => {
                 stats.steps += 1;
                 let r = s.total_fee_rate as u128;
+                if r > 65_535 && s.fee_amount > 0 {
+                    stats.steps_rate_above_16_bits += 1;
+                }
                 if r > 100_000 {
                     return Err(format!("step charged fee rate {r} above the 10% hard limit"));
                 }
